@@ -341,6 +341,19 @@ func mutations(b base, desc protoreflect.MessageDescriptor, thorough bool) []inp
 			}
 		}
 	}
+	// thorough: every triple of occurrences for small messages
+	if thorough && len(all) <= 30 {
+		for i := range all {
+			for j := i + 1; j < len(all); j++ {
+				for k := j + 1; k < len(all); k++ {
+					if ancestor(i, j) || ancestor(i, k) || ancestor(j, k) {
+						continue
+					}
+					gen("delete "+paths[i]+" and "+paths[j]+" and "+paths[k], map[int]edit{i: {drop: true}, j: {drop: true}, k: {drop: true}})
+				}
+			}
+		}
+	}
 	// (iv) substitutions
 	scalars := []uint64{0, 1, 255, 256, 1<<32 - 1, 1 << 32, 1 << 63, 1<<64 - 1}
 	for i, n := range all {
@@ -659,6 +672,19 @@ func Run(r *vrep.R, types []Type) {
 	for i := range types {
 		t := &types[i]
 		ins := allInputs(rn, t, r.Thorough())
+		if i == 0 {
+			// written-out cases: the first base, one deletion, one substitution
+			shown := 0
+			for _, in := range ins {
+				if shown < 4 && (strings.HasSuffix(in.label, " unchanged") || strings.Contains(in.label, " delete ") || strings.Contains(in.label, "=4294967296") || strings.Contains(in.label, " prefix 3/")) {
+					b := in.bytes()
+					if len(b) <= 256 && !(shown > 0 && strings.HasSuffix(in.label, " unchanged")) {
+						r.Sample(map[string]any{"type": t.Name, "input": in.label, "hex": hex.EncodeToString(b)})
+						shown++
+					}
+				}
+			}
+		}
 		r.Add("inputs."+t.Name, int64(len(ins))+65536)
 		vrep.Parallel(vrep.Workers(), len(ins), func(k int) {
 			if r.Expired() {
@@ -676,7 +702,25 @@ func Run(r *vrep.R, types []Type) {
 			}
 		})
 	}
-	var list []string
+	if r.Thorough() {
+		// thorough: all 3-byte strings that start with the tag of field 1..5 as varint
+		// or length-delimited (the only first bytes after which a decoder can get
+		// anywhere within three bytes)
+		firsts := []byte{0x08, 0x0a, 0x10, 0x12, 0x18, 0x1a, 0x20, 0x22, 0x28, 0x2a}
+		for i := range types {
+			t := &types[i]
+			vrep.Parallel(vrep.Workers(), len(firsts)*256, func(k int) {
+				if r.Expired() {
+					return
+				}
+				f, a := firsts[k/256], byte(k%256)
+				for b := 0; b < 256; b++ {
+					rn.decode(t, fmt.Sprintf("bytes %02x%02x%02x", f, a, b), []byte{f, a, byte(b)})
+				}
+			})
+		}
+	}
+	list := []string{}
 	for k, d := range rn.sites {
 		list = append(list, k+" <= "+d)
 	}
@@ -693,7 +737,11 @@ func allInputs(rn *runner, t *Type, thorough bool) []input {
 		if enc == nil {
 			continue
 		}
-		if t.MaxBases > 0 && nb >= t.MaxBases {
+		maxBases := t.MaxBases
+		if thorough {
+			maxBases *= 4
+		}
+		if maxBases > 0 && nb >= maxBases {
 			continue
 		}
 		nb++
